@@ -149,5 +149,11 @@ def obligations(tier):
             for om in (0, 1, 2):
                 o.append(read(MIX2, 6, 2, 2, 0, cn, om, chunk=4, skip=1, faults=2, timeout=1800))
                 o.append(batch(MIX2, 6, 2, 2, 0, cn, om, bs=4, proj=om, faults=2, timeout=1800))
-        o.append(wide_read(70, 3, 0, faults=2)); o.append(wide_write(70, 3, 1, faults=2))
+            # every physical type once under two failures
+            o.append(write('b,F,x', 6, 2, 2, 0, cn, api=1, faults=2, timeout=2400))
+            o.append(write('I,d,s', 6, 2, 2, 1, cn, policy=1, faults=2, timeout=2400))
+            o.append(read(ALL1, 6, 2, 2, 0, cn, (CN.index(cn) + 1) % 3, chunk=3, skip=2, faults=2, timeout=2400))
+            o.append(batch(MIX3, 6, 2, 2, 0, cn, (CN.index(cn) + 2) % 3, bs=4, proj=1, faults=2, timeout=2400))
+        o.append(wide_read(70, 3, 0, faults=2)); o.append(wide_read(70, 3, 1, faults=2)); o.append(wide_write(70, 3, 1, faults=2))
+        o += [wide_read(40, 6, 2), wide_write(40, 6, 2), wide_write(24, 9, 2, 'lz4')]
     return o
